@@ -1,5 +1,6 @@
 import NanoVerif.Props.C13
 import NanoVerif.Props.C11
+import NanoVerif.Props.C14
 /-
 C12 — maximum_color adds colour tables without altering the font.
 The pipeline re-enters nanoemoji with `width = 0` and a per-glyph viewBox `0 0 advance (asc−desc)`
